@@ -86,7 +86,8 @@ def _q0s(ctx):
     ks = range(len(A.MENU)) if ctx.thorough else [A.seed_k(ctx.seed)]
     for k in ks:
         out.append((f'menu{k}', A.MENU[k].copy()))
-        out.append((f'negcoset{k}', -rq.qmul(A.MENU[k], np.array([0.5, 0.5, 0.5, -0.5]))))
+        p = rq.qmul(A.MENU[k], np.array([0.5, 0.5, 0.5, -0.5]))          # generic components, scalar part made negative
+        out.append((f'negcoset{k}', -p if p[0] > 0 else p))
     return out
 
 
